@@ -173,6 +173,9 @@ def run_topdown(case, tmp):
     path = slp if case["provider"] == "LabelsReader" else S.png_video_paths(tmp, "t")
 
     def mk():
+        if case["model"] == "topdown-gt":
+            # centred-instance model only: centroids come from the labelled instances (anchor node 0)
+            return I.topdown_gt_predictor(3, 0, case["i_scale"], case["i_max_stride"], case["i_stride"], 1.5, case["crop"], (mh, mw), case["refinement"], case["batch"], sk)
         p = I.topdown_predictor(
             3, 0, case["c_scale"], case["i_scale"], case["c_max_stride"], case["i_max_stride"], case["c_stride"], case["i_stride"], 1.5,
             case["crop"], (mh, mw), case["refinement"], case["batch"], sk,
@@ -246,6 +249,17 @@ def grid(tier):
         cases.append({
             "model": "topdown", "hw": list(hw), "max_hw": list(mx), "c_scale": c, "i_scale": i, "c_max_stride": 16, "i_max_stride": 16 if cr % 16 == 0 else 8,
             "c_stride": cst, "i_stride": ist, "crop": cr, "refinement": rf, "batch": b, "provider": prov, "animals": an, "layout": lay,
+        })
+    # top-down with ground-truth centroids (centred-instance model only; needs the labels => LabelsReader)
+    if tier == "quick":
+        hws, maxs, iscs, ists, crops, refs, batches, animals = [(64, 96)], [(None, None), (96, 160)], [1.0, 0.5], [2], [32], [None, "integral"], [3], [2]
+    else:
+        hws, maxs = [(64, 64), (64, 96), (90, 70)], [(None, None), (96, 96), (96, 160), (48, 80)]
+        iscs, ists, crops, refs, batches, animals = [1.0, 0.5, 0.75, 2.0], [1, 2, 4], [32, 48], [None, "integral"], [1, 3], [1, 2]
+    for hw, mx, i, ist, cr, rf, b, an in itertools.product(hws, maxs, iscs, ists, crops, refs, batches, animals):
+        cases.append({
+            "model": "topdown-gt", "hw": list(hw), "max_hw": list(mx), "c_scale": 1.0, "i_scale": i, "c_max_stride": 16, "i_max_stride": 16 if cr % 16 == 0 else 8,
+            "c_stride": 2, "i_stride": ist, "crop": cr, "refinement": rf, "batch": b, "provider": "LabelsReader", "animals": an, "layout": 0,
         })
     return cases
 
